@@ -47,6 +47,7 @@ type fan struct {
 	live    map[int]bool
 	down    int // index (1-based) of the server that is down, 0 = none
 	userSrv int
+	onSrv   map[int]int // id -> server of the shard that held it at the last placement
 }
 
 func (f *fan) entry() *cluster.ClusterNode { return f.nodes[f.r.Intn(len(f.nodes))] }
@@ -93,6 +94,9 @@ func (f *fan) place() {
 			ids[i] = sd.IDOf(p.Id)
 		}
 		sort.Ints(ids)
+		for _, id := range ids {
+			f.onSrv[id] = sidx
+		}
 		shards = append(shards, M{"shard": si + 1, "server": sidx, "up": 1, "ids": ids})
 	}
 	f.tw.Emit("CPlace", M{"shards": shards, "down": f.down, "max": 0})
@@ -192,21 +196,55 @@ func b2i(b bool) int {
 	return 0
 }
 
-func (f *fan) update() {
-	ids := f.pick(1+f.r.Intn(6), 0.7)
+func (f *fan) update() { f.updateVia(f.entry(), f.pick(1+f.r.Intn(6), 0.7)) }
+
+func (f *fan) updateVia(n *cluster.ClusterNode, ids []int) {
 	pts, abs := f.points(ids, true)
-	failed, err := f.entry().UpdatePoints(f.col, pts)
+	failed, err := n.UpdatePoints(f.col, pts)
 	f.tw.Emit("CUpdate", M{"pts": abs, "ok": b2i(err == nil), "failed": failedList(failed)})
 	f.place()
 }
 
-func (f *fan) delete() {
-	ids := f.pick(1+f.r.Intn(5), 0.7)
+func (f *fan) delete() { f.deleteVia(f.entry(), f.pick(1+f.r.Intn(5), 0.7)) }
+
+// probeDown: the first request of every entry node after a shard server died
+// (each still holds a connection to it) names an id held by the dead server, an
+// id that does not exist and a reachable one.
+func (f *fan) probeDown() {
+	for k, n := range f.nodes {
+		var ids []int
+		for id := 1; id <= FanCfg.N(); id++ {
+			if f.live[id] && f.onSrv[id] == f.down {
+				ids = append(ids, id)
+				break
+			}
+		}
+		for id := FanCfg.N(); id >= 1; id-- {
+			if !f.live[id] {
+				ids = append(ids, id)
+				break
+			}
+		}
+		for id := 1; id <= FanCfg.N(); id++ {
+			if f.live[id] && f.onSrv[id] != f.down {
+				ids = append(ids, id)
+				break
+			}
+		}
+		if (k+int(f.r.Int63()))%2 == 0 {
+			f.updateVia(n, ids)
+		} else {
+			f.deleteVia(n, ids)
+		}
+	}
+}
+
+func (f *fan) deleteVia(n *cluster.ClusterNode, ids []int) {
 	us := make([]uuid.UUID, len(ids))
 	for i, id := range ids {
 		us[i] = sd.UUIDOf(id)
 	}
-	failed, err := f.entry().DeletePoints(f.col, us)
+	failed, err := n.DeletePoints(f.col, us)
 	f.tw.Emit("CDelete", M{"ids": ids, "ok": b2i(err == nil), "failed": failedList(failed)})
 	bad := map[int]bool{}
 	for _, p := range failed {
@@ -314,7 +352,7 @@ func RunFanout(histNo int, seed int64, root string, tw *trace.Writer, o FanOpts)
 	for i, p := range ports {
 		names[i] = ServerName(p)
 	}
-	f := &fan{r: r, g: &sd.Gen{R: r, Cfg: FanCfg}, tw: tw, names: names, live: map[int]bool{}}
+	f := &fan{r: r, g: &sd.Gen{R: r, Cfg: FanCfg}, tw: tw, names: names, live: map[int]bool{}, onSrv: map[int]int{}}
 	inproc := o.Servers
 	if o.KillOne {
 		inproc = o.Servers - 1
@@ -358,6 +396,7 @@ func RunFanout(histNo int, seed int64, root string, tw *trace.Writer, o FanOpts)
 			f.down = o.Servers
 			tw.Emit("CDown", M{"server": o.Servers})
 			f.place()
+			f.probeDown()
 		}
 		x := f.r.Float64()
 		switch {
